@@ -366,6 +366,27 @@ def r04_5(ctx: Ctx, need: str = "keep-offspring"):
     return obs
 
 
+def _is_presence_test(u, par) -> bool:
+    """The name is only tested for presence / truth: up through not / and / or / `is (not) None` to the test of an if,
+    conditional expression, while or assert."""
+    q, child = par.get(id(u)), u
+    hops = 0
+    while q is not None and hops < 6:
+        if isinstance(q, (ast.If, ast.IfExp, ast.While, ast.Assert)):
+            return q.test is child
+        if isinstance(q, ast.UnaryOp) and isinstance(q.op, ast.Not):
+            pass
+        elif isinstance(q, ast.BoolOp):
+            pass
+        elif isinstance(q, ast.Compare) and len(q.ops) == 1 and isinstance(q.ops[0], (ast.Is, ast.IsNot, ast.Eq, ast.NotEq)) and all(isinstance(c, ast.Constant) and c.value is None for c in q.comparators):
+            pass
+        else:
+            return False
+        q, child = par.get(id(q)), q
+        hops += 1
+    return False
+
+
 def r04_6(ctx: Ctx):
     """R04.6 in minimize() `maxfun` flows only into the cutoff wrapper and the stop condition; `seed` only into options['random_seed']."""
     f = ctx.prog.func("pyhms.hms", "minimize")
@@ -391,6 +412,8 @@ def r04_6(ctx: Ctx):
                     ok = True
                 if ok:
                     pass
+                elif _is_presence_test(u, par):
+                    ok = True
                 elif isinstance(p, ast.Compare) and all(isinstance(c, ast.Constant) and c.value is None for c in p.comparators):
                     ok = True
                 elif isinstance(p, ast.IfExp) and p.test is u:
@@ -405,7 +428,17 @@ def r04_6(ctx: Ctx):
                 if isinstance(p, ast.Dict):
                     idx = [i for i, v in enumerate(p.values) if v is u]
                     ok = bool(idx) and isinstance(p.keys[idx[0]], ast.Constant) and p.keys[idx[0]].value == "random_seed"
-            obs.append(ctx.ob("R04.6", f, u, status=OK if ok else VIOLATION, detail=f"`{pname}` used for {allowed_desc}" if ok else f"`{pname}` flows into `{where}`: the search itself (population sizes, generations, operators) depends on the budget / seed in an undeclared way, so a larger budget no longer replays the same evaluations as a prefix", construct=f"{pname}@{where}"))
+            definite = False
+            if not ok:
+                # positive evidence: the value reaches the configuration of the search (a level config, a default-size helper)
+                q = p
+                hops = 0
+                while q is not None and hops < 8:
+                    if isinstance(q, ast.Call) and (norm(q.func).endswith("LevelConfig") or norm(q.func).startswith("get_default_") or norm(q.func) in ("np.random.seed", "random.seed")):
+                        definite = True
+                    q = par.get(id(q))
+                    hops += 1
+            obs.append(ctx.ob("R04.6", f, u, status=OK if ok else VIOLATION if definite else INCONCLUSIVE, detail=f"`{pname}` used for {allowed_desc}" if ok else f"`{pname}` flows into `{where}`: the search itself (population sizes, generations, operators) depends on the budget / seed in an undeclared way, so a larger budget no longer replays the same evaluations as a prefix", construct=f"{pname}@{where}"))
     # the default budget assignment
     for n in body_walk(f.node):
         if isinstance(n, ast.Assign) and any(isinstance(t, ast.Name) and t.id == "maxfun" for t in n.targets):
